@@ -248,6 +248,12 @@ example : exA.moveToEnd ["y", "x"] = some { dims := [("t", 2), ("y", 2), ("x", 3
 example : exConv.ravel exA (some "index") = some { dims := [("t", 2), ("index", 6)], data := [0,1,2,6,7,8,3,4,5,9,10,11] } := by decide
 example : (exConv.ravel exA (some "index")).bind (fun r => exConv.wind r none none none) = exA.moveToEnd ["y", "x"] := by decide
 example : exConv.ravel exA (some "t") = none := by decide
+-- the linear dimension may carry the name of a grid dimension (`hfresh` of `wind_ravel` / `wind_get` only
+-- excludes the dimensions that are kept): flattened to "x", wound back; linear data called "y" at position 0
+example : exConv.ravel exA (some "x") = some { dims := [("t", 2), ("x", 6)], data := [0,1,2,6,7,8,3,4,5,9,10,11] } := by decide
+example : (exConv.ravel exA (some "x")).bind (fun r => exConv.wind r none none none) = exA.moveToEnd ["y", "x"] := by decide
+example : exConv.wind ({ dims := [("y", 6), ("t", 2)], data := [0,1,2,3,4,5,6,7,8,9,10,11] } : NArr Int) none (some 0) none
+    = some { dims := [("y", 2), ("x", 3), ("t", 2)], data := [0,1,2,3,4,5,6,7,8,9,10,11] } := by decide
 example : exConv.ravel ({ dims := [("t", 2)], data := [1, 2] } : NArr Int) none = none := by decide
 
 end Ems.C03
